@@ -172,6 +172,27 @@ def _get_used_variables(stmt: Statement) -> frozenset[str]:
     return stmt.used_variables()
 
 
+def _get_asserted_variables(stmt: Statement) -> set[str]:
+    """Return the variable names read by the assertions attached to *stmt*.
+
+    The source of a reference assertion is a variable name or a dotted
+    attribute-access path rooted in one (e.g. ``var_0.field``); exception
+    assertions read no variable.
+
+    Args:
+        stmt: The statement to inspect.
+
+    Returns:
+        The set of variable names read by the statement's assertions.
+    """
+    names: set[str] = set()
+    for assertion in stmt.assertions:
+        source = getattr(assertion, "source", None)
+        if isinstance(source, str):
+            names.add(source.split(".", 1)[0].strip())
+    return names
+
+
 def _uses_variable(stmt: Statement, var_name: str) -> bool:
     """Return True if *var_name* is used (read) anywhere in *stmt*'s CST.
 
@@ -591,7 +612,9 @@ class TestCase:  # noqa: PLR0904
 
         Uses a backward pass to track alive variables. For each assignment, if the
         bound variable is not alive at that point, the assignment is replaced with
-        a simple expression statement.
+        a simple expression statement. Variables read by the assertions attached to
+        a statement count as used, and a statement that loses its binding keeps its
+        assertions.
         """
         self._code_cache = None
         alive_vars: set[str] = set()
@@ -599,6 +622,10 @@ class TestCase:  # noqa: PLR0904
         for i in range(len(self._statements) - 1, -1, -1):
             stmt = self._statements[i]
             bv = stmt.bound_variable
+
+            # The assertions of a statement are emitted right after it, so every
+            # variable they read is alive at the end of this statement.
+            alive_vars.update(_get_asserted_variables(stmt))
 
             if bv is not None:
                 if bv in alive_vars:
@@ -609,10 +636,15 @@ class TestCase:  # noqa: PLR0904
                     # Variable is NOT used later. Transform Assign to Expr.
                     new_node = self._transform_assign_to_expr(stmt.node)
                     if new_node is not stmt.node:
+                        # Only the binding goes away; the oracles (and the
+                        # metadata the exporter consults) stay with the statement.
                         self._statements[i] = Statement(
                             node=new_node,
                             bound_variable=None,
                             bound_type=None,
+                            assertions=list(stmt.assertions),
+                            accessible=stmt.accessible,
+                            ml_info=stmt.ml_info,
                         )
                     # Even if unused, the RHS might use other variables
                     alive_vars.update(_get_used_variables(stmt))
